@@ -396,6 +396,11 @@ func runHTTPStopAs(t *testing.T, ci interface{}, trace bool, prop string) *commo
 		for _, pp := range tlsPeers {
 			pp.nconn.Close()
 		}
+		if len(tlsPeers) > 0 {
+			// (a reader of the harness that is still parked in a read makes the shim defer the
+			// real close until it has returned: let it)
+			simrt.Idle()
+		}
 		if c.TLS {
 			addr = &kernel.Addr{Net: "tcp", IP: [4]byte{127, 0, 0, 1}, Port: 8443}
 		}
@@ -414,7 +419,7 @@ func runHTTPStopAs(t *testing.T, ci interface{}, trace bool, prop string) *commo
 			return
 		}
 		if n := simrt.PendingTimers(); n > 0 {
-			fail("timer-leak", class, "%d timers are still armed after %s returned and every connection was closed", n, c.Method)
+			fail("timer-leak", class, "%d timers are still armed after %s returned and every connection was closed: %v", n, c.Method, simrt.PendingTimerNames())
 		}
 	})
 	o.Steps = res.Steps
